@@ -92,6 +92,36 @@ def history_cases(rng, n):
     return out
 
 
+def redeclared_cases(rng, n):
+    """Within ONE process and ONE engine a table is described again under the same name with other (truthful) contents and
+    bounds — it grew, or was empty the first time — and used in the same binary operations as before: the declaration of
+    the new relations must be about the new leaves."""
+    import multiprog as mp
+    from lsst.daf.relation import iteration
+    out = []
+    for k in range(n):
+        eng = iteration.Engine(name="redecl")
+        cols = [K(1)] if rng.random() < 0.6 else [K(1), K(2)]
+        def leaf(name, nrows):
+            rows = [{c: rng.choice((0, 1, 2)) for c in cols} for _ in range(nrows)]
+            return eng.make_leaf(set(cols), payload=iteration.RowSequence(rows), name=name)
+        other = leaf("other", rng.choice([0, 1, 2]))
+        n1, n2 = rng.sample([0, 1, 2, 3, 5], 2)
+        for nrows in (n1, n2):                       # the second round re-declares "visits" with other bounds
+            visits = leaf("visits", nrows)
+            rel = visits.chain(other) if k % 2 == 0 else other.chain(visits)
+            if rng.random() < 0.5:
+                rel = rel.chain(leaf("third", 1))
+            _ = (rel.min_rows, rel.max_rows, rel.is_trivial)          # looked at, as a caller would
+        rows = [dict(r) for r in eng.execute(rel)]
+        coq = (f"DCase {cset(sorted(rel.columns))} {cz(rel.min_rows)} {coptz(rel.max_rows)} {cbool(bool(rel.is_join_identity))} "
+               f"{enc.crows(rows)}")
+        out.append({"json": {"history": f"'visits' declared with {n1} rows, then again with {n2} rows, each time chained with the same operands",
+                             "declared": [rel.min_rows, rel.max_rows], "rows": jsonable(rows)},
+                    "coq": coq, "nontrivial": True, "key": f"redecl{k}:{n1}:{n2}"})
+    return out
+
+
 def sql_cases(rng, n):
     """SQL-engine programs (joins with shared key columns and duplicate rows, chains, every unary operation) executed on
     SQLite: the declared columns / row bounds / join-identity flag against the rows the database returns."""
@@ -136,6 +166,10 @@ def run(ctx):
     hcases = history_cases(rng, 200 if ctx.tier == "quick" else 4000)
     hsumm = core.judge(ctx, hcases, HDR, "check_decl", prefix="cases_C06h",
                        bits={4: "rows of a processed-extended-processed tree contradict its declared columns / row bounds / flags"})
+    rcases = redeclared_cases(rng, 60 if ctx.tier == "quick" else 1000)
+    rsumm = core.judge(ctx, rcases, HDR, "check_decl", prefix="cases_C06r",
+                       bits={4: "after a table was described again under the same name, a relation built on the new leaf declares "
+                                "bounds its rows contradict"})
     qcases = sql_cases(rng, 240 if ctx.tier == "quick" else 5000)
     qsumm = core.judge(ctx, qcases, HDR, "check_decl", prefix="cases_C06q",
                        bits={4: "rows returned by the database contradict the declared columns / row bounds / flags of the SQL relation"})
@@ -148,11 +182,11 @@ def run(ctx):
     for c in cases:
         remap.append(c)
     summ = core.judge(ctx, cases, HDR.replace("check_meta", "check_meta"), "check_meta_j", bits=bits)
-    core.conclude_s1(ctx, s1, summ["spec_failures"] + hsumm["spec_failures"] + qsumm["spec_failures"] > 0 or bool(ctx.violations))
+    core.conclude_s1(ctx, s1, summ["spec_failures"] + hsumm["spec_failures"] + qsumm["spec_failures"] + rsumm["spec_failures"] > 0 or bool(ctx.violations))
     distinct = {c["key"] for c in cases + hcases + qcases if c["nontrivial"]}
     ctx.coverage.update({
         "evaluations": len(cases) + len(hcases) + len(qcases), "distinct_nontrivial": len(distinct),
-        "multi_engine_histories": hsumm, "sql_engine_programs": qsumm,
+        "multi_engine_histories": hsumm, "sql_engine_programs": qsumm, "redeclared_leaves": rsumm,
         "rule": "iteration-engine programs over leaves whose declared bounds are exact, loose, zero or unbounded but "
                 "consistent with the real row count, plus doomed and join-identity leaves; for every built relation the "
                 "declared columns/min_rows/max_rows/flags are compared with the model's and with the executed rows; "
